@@ -587,6 +587,7 @@ func (w *watch) watch(fsw *fsnotify.Watcher, m *sync.Mutex, refresh func() error
 			} else {
 				w.update(dirErrors)
 			}
+			verifPoint("watch.updated", m, event.Name, event.Op.String())
 			_ = refresh()
 			verifPoint("watch.handled", m, event.Name, event.Op.String())
 			m.Unlock()
